@@ -44,6 +44,13 @@ Theorem C12_connection_version_unadvertised : forall client adv k,
 Proof. exact negotiate_not_advertised. Qed.
 Print Assumptions C12_connection_version_unadvertised.
 
+(* the payload of a Produce request is encoded in the record format of the negotiated version:
+   record batches (magic 2) exactly from Produce v3 on, message sets (magic 1) exactly below *)
+Theorem C12_produce_record_format : forall v,
+  (produce_record_version v = 2 <-> 3 <= v) /\ (produce_record_version v = 1 <-> v < 3).
+Proof. exact produce_record_format. Qed.
+Print Assumptions C12_produce_record_format.
+
 (* ---- produce / fetch / raw-produce: routed by partition leader ---- *)
 (* [brokers_wf]: the Brokers map is keyed by the ID field and ids are >= 0 (see C12_layout_wf).
    Ok b  : every named topic is known and b is the broker the layout designates for EVERY
